@@ -117,8 +117,14 @@ def shard(args) -> Acc:
     firsts = c01.first_specs(tier, 1 if n < 3 else 3)[lo:hi]
     if n < 3:
         # bounds that are not symmetric around zero: on the batteries, on the inverters
-        extra = [asymmetric(g, bs, is_) for g in firsts for bs, is_ in ((0.5, 1.0), (1.0, 0.5))
+        # (scale 0: a battery that reports a discharge bound of exactly 0 W, e.g. because it is empty)
+        extra = [asymmetric(g, bs, is_) for g in firsts for bs, is_ in ((0.5, 1.0), (1.0, 0.5), (0.0, 1.0))
                  if all(b.lower_scale == 1.0 for b in g.bats)]
+        # one battery of a multi-battery group only (its neighbour behind the same inverter keeps symmetric bounds)
+        from dataclasses import replace as _r
+
+        extra += [dist.GroupSpec((g.bats[0],) + tuple(_r(b, lower_scale=sc) for b in g.bats[1:]), g.invs)
+                  for g in firsts for sc in (0.0, 0.5) if len(g.bats) > 1 and all(b.lower_scale == 1.0 for b in g.bats)]
         firsts = firsts + [g for g in extra if dist.consistent([g])]
     if n == 1:
         combos = [()]
@@ -171,7 +177,8 @@ def run(tier: str, seed: int, workers: int):
     meta = {
         "rule": "every bounds-distinct configuration of the C01 grid (1-2 groups quick, 1-3 thorough; shared inverters = two "
         "batteries behind one inverter, shared batteries = one battery behind two inverters, 2x2) with symmetric bounds and with "
-        "lower bounds scaled by 0.5 on the batteries or on the inverters (exclusion zone not symmetric around zero); per configuration the real PowerBoundsCalculator output is compared with the real "
+        "lower bounds scaled by 0.5 on the batteries or on the inverters (exclusion zone not symmetric around zero) or by 0 on the "
+        "batteries (a discharge bound of exactly 0 W); per configuration the real PowerBoundsCalculator output is compared with the real "
         "BatteryManager's answers for every power on, one below and one above each advertised bound, with adjust_power "
         "True and False; non-trivial = more than one group or a shared inverter/battery",
         "assumptions": [
